@@ -77,6 +77,7 @@ pub struct LiveNode {
     pub delivered_ok: BTreeMap<Digest, u64>,
     pub odd: BTreeSet<Digest>,
     pub batches: BTreeSet<u8>,
+    pub pending_digests: BTreeSet<u8>,
     pub hist: Hist,
     pub panicked: bool,
     pub history: Vec<Ev>,
@@ -87,6 +88,11 @@ pub struct LiveNode {
 /// Digest of payload batch k (NOT pre-stored: it arrives with `Ev::Batch(k)`).
 pub fn payload_digest(k: u8) -> Digest {
     Digest([0xC0u8.wrapping_add(k); 32])
+}
+
+/// Digest k of the node's own mempool (handed to its proposer with `Ev::Digest(k)`).
+pub fn own_digest(k: u8) -> Digest {
+    Digest([0xD0u8.wrapping_add(k); 32])
 }
 
 pub fn variant_payload() -> Digest {
@@ -117,6 +123,7 @@ impl LiveNode {
             delivered_ok: BTreeMap::new(),
             odd: BTreeSet::new(),
             batches: BTreeSet::new(),
+            pending_digests: BTreeSet::new(),
             hist: Hist::default(),
             panicked: false,
             history: Vec::new(),
@@ -134,6 +141,7 @@ impl LiveNode {
             stored: self.stored_map.clone(),
             parked: self.delivered_ok.iter().filter(|(d, _)| !self.stored.contains(*d)).map(|(d, h)| (d.clone(), *h)).collect(),
             batches: self.batches.clone(),
+            pending_digests: self.pending_digests.clone(),
             odd: self.odd.clone(),
             hist: self.hist.clone(),
             panicked: self.panicked,
@@ -158,6 +166,16 @@ impl LiveNode {
                 let key = payload_digest(k).to_vec();
                 self.node.rt.block_on(async move { store.write(key, b"batch".to_vec()).await });
                 self.batches.insert(k);
+                self.observe(uni, None)
+            }
+            Ev::Digest(k) => {
+                if let Some(tx) = self.node.tx_digest.clone() {
+                    let d = own_digest(k);
+                    self.node.rt.block_on(async move {
+                        let _ = tx.send(d).await;
+                    });
+                    self.pending_digests.insert(k);
+                }
                 self.observe(uni, None)
             }
         }
@@ -256,6 +274,12 @@ impl LiveNode {
         }
         for b in &commits {
             uni.note_block(b);
+        }
+        for b in &own_proposals {
+            let gone: Vec<u8> = self.pending_digests.iter().cloned().filter(|k| b.payload.contains(&own_digest(*k))).collect();
+            for k in gone {
+                self.pending_digests.remove(&k);
+            }
         }
 
         // ---- delivered message bookkeeping ----
